@@ -57,6 +57,28 @@ class Case:
         return ' and '.join(('%s' if t else 'not(%s)') % c for c, t in self.conds) or 'always'
 
 
+def split_piecewise(cases, limit=64):
+    """Cases whose value contains a Piecewise (an inlined callee with branches) are split into one case per branch, so that a branch
+    taken only on a thin set (`n == 1`) is compared on that set instead of being averaged away by random sampling."""
+    out = []
+    work = list(cases)
+    while work:
+        c = work.pop(0)
+        pws = sorted(c.value.atoms(sp.Piecewise), key=lambda x: len(str(x))) if isinstance(c.value, sp.Basic) else []
+        if not pws or len(out) + len(work) > limit:
+            out.append(c)
+            continue
+        pw = pws[0]
+        earlier = []
+        for expr, cond in pw.args:
+            conds = list(c.conds) + [(e_, False) for e_ in earlier]
+            if cond != sp.true:
+                conds.append((cond, True))
+                earlier.append(cond)
+            work.append(Case(conds, c.value.xreplace({pw: expr}), c.node))
+    return out
+
+
 class SymExec:
     """Symbolic reader of one function body.
 
@@ -375,8 +397,16 @@ class SymExec:
                 merged = dict(e2)
                 for k in set(e1) | set(e2):
                     a, b = e1.get(k), e2.get(k)
+                    if (a is None or b is None) and not k.isidentifier():
+                        # an attribute / array entry written on one side only keeps its earlier content on the other side
+                        try:
+                            old = self.ex(ast.parse(k, mode='eval').body, env)
+                        except Exception:
+                            old = None
+                        if old is not None:
+                            a, b = (a if a is not None else old), (b if b is not None else old)
                     if a is None or b is None:
-                        merged[k] = a if a is not None else b
+                        merged[k] = a if a is not None else b      # a local bound on one side only
                     elif a != b:
                         try:
                             merged[k] = sp.Piecewise((a, self._bool(c)), (b, True))
@@ -479,6 +509,7 @@ class SymExec:
 
     def _acc_targets(self, body):
         accs = {}
+        local = set()       # names (re)bound by a plain assignment in this body: temporaries of one iteration, also when an inner loop accumulates into them
         for st in body:
             if isinstance(st, ast.AugAssign) and isinstance(st.target, (ast.Name, ast.Subscript, ast.Attribute)):
                 op = '*' if isinstance(st.op, (ast.Mult, ast.Div)) else '+' if isinstance(st.op, (ast.Add, ast.Sub)) else None
@@ -491,6 +522,8 @@ class SymExec:
                 if sub is None:
                     return None
                 for k, op in sub.items():
+                    if k in local:
+                        continue
                     if accs.get(k, op) != op:
                         return None
                     accs[k] = op
@@ -510,6 +543,8 @@ class SymExec:
                 elif t in {n.id for n in ast.walk(v) if isinstance(n, ast.Name)}:
                     return None
                 else:
+                    if t not in accs:
+                        local.add(t)
                     continue    # loop-local temporary
                 if accs.get(t, op) != op:
                     return None
